@@ -258,8 +258,9 @@ def run(cx):
     ok = len(leafs) == 1 and [norm(a) for a in leafs[0].args] == ["cur_symbol", "next_token.value"]
     cx.ob("R01d", leafs[0] if leafs else parse, ok, "a leaf has the expected terminal's name and the token's value" if ok else "leaf construction altered")
     if leafs:
-        fsl = {(norm(e), pol) for e, pol in facts(leafs[0])}
-        ok = ("next_token.name == cur_symbol", True) in fsl and ("cur_symbol in self.terminals", True) in fsl
+        from sa.guards import canon_facts
+        fsl = canon_facts(leafs[0])
+        ok = ("==", "cur_symbol", "next_token.name", True) in fsl and ("in", "cur_symbol", "self.terminals", True) in fsl
         cx.ob("R01d", leafs[0], ok, "built only when the token under the cursor has the expected name" if ok else "a leaf can be built for a token of another name", stmt=norm(leafs[0])[:50] + " [guard]")
         call = parent(leafs[0])
         ok = isinstance(call, ast.Call) and call_name(call) == "next_matched" and norm(call.args[1]).replace(" ", "") == "top.cur_token_pos+1"
